@@ -176,6 +176,9 @@ pub struct DumpScn {
     /// read only the entries [from, to) of every index (stores of tens of thousands of entries under a damage sweep)
     #[serde(default)]
     pub entry_window: Option<(u32, u32)>,
+    /// do not read the entries through the typed property builders as well (sweeps over stores of thousands of entries)
+    #[serde(default)]
+    pub no_typed: bool,
 }
 
 #[derive(Deserialize, Clone)]
@@ -254,7 +257,7 @@ pub fn dump_value(c: &jbk::reader::Container, s: &DumpScn) -> J {
             };
             // every entry through the typed property builders, whatever the generic builder says (a panic is recorded, not fatal)
             let mut typed = vec![];
-            if let Ok(st) = index.get_store(c.get_entry_storage()) {
+            if let (false, Ok(st)) = (s.no_typed, index.get_store(c.get_entry_storage())) {
                 for i in from..to {
                     let t = catch(|| {
                         entries::typed_values_any(
